@@ -170,6 +170,8 @@ def run(ctx):
         if not defs:
             return False
         for d in defs:
+            if norm(d) in (rdict, f"{rdict}.keys()"):
+                continue  # iterating the dict itself gives its keys, one each, in order
             if isinstance(d, ast.Call) and call_name(d) in ("list", "tuple") and len(d.args) == 1 and norm(d.args[0]) in (rdict, f"{rdict}.keys()"):
                 continue
             if isinstance(d, (ast.ListComp,)) and len(d.generators) == 1 and not d.generators[0].ifs and norm(d.generators[0].iter) in (rdict, f"{rdict}.keys()"):
@@ -197,7 +199,11 @@ def run(ctx):
         ok = len(writes) == 1 and enclosing_conditions(writes[0], loop) == [] and not [n for n in ast.walk(loop) if isinstance(n, (ast.Break, ast.Continue, ast.Return))]
         if ok:
             used = {n.id for n in ast.walk(writes[0]) if isinstance(n, ast.Name)}
-            # the key may be re-labelled inside the loop (key = f"{key} (type)")
+            # the key may be re-labelled inside the loop (key = f"{key} (type)"), also into another local (label = ... key ...)
+            for _ in range(3):
+                for st in ast.walk(loop):
+                    if isinstance(st, ast.Assign) and len(st.targets) == 1 and isinstance(st.targets[0], ast.Name) and st.targets[0].id in used:
+                        used |= {n.id for n in ast.walk(st.value) if isinstance(n, ast.Name)}
             ok = vvar in used and kvar in used
         ctx.check(ok, "R20.3", "LineWriter.write:one-line-per-item", "not exactly one unconditional `name = value` line per field", loop, "one write per item")
         # every local the line is built from is defined whenever the loop body runs (the body runs only for a non-empty dict)
